@@ -1093,9 +1093,22 @@ class Executor(object):
         if op == 'fpext' or op == 'fptrunc':
             if sw == 80 or dw == 80:
                 h = self.stubs.get('!' + op + '80')
-                if h is None:
-                    raise Unsupported(op + ' involving x86_fp80 without a model')
-                return h(self, v, sw, dw)
+                if h is not None:
+                    return h(self, v, sw, dw)
+                # x87 extended precision as z3's FPSort(15, 64); the explicit integer bit is the canonical one
+                # (unnormals / pseudo-denormals are not modelled)
+                X = z3.FPSort(15, 64)
+                if sw == 80:
+                    b = bv(v, 80)
+                    f = z3.fpFP(z3.Extract(79, 79, b), z3.Extract(78, 64, b), z3.Extract(62, 0, b))
+                    if dw == 80:
+                        return v
+                    return from_fp(z3.fpToFP(z3.RNE(), f, FSORT[dw]))
+                f = z3.fpToFP(z3.RNE(), to_fp(v, sw), X)
+                ie = z3.fpToIEEEBV(f)                       # 79 bits: sign, 15 exponent bits, 63 fraction bits
+                sign, ex_, fr = z3.Extract(78, 78, ie), z3.Extract(77, 63, ie), z3.Extract(62, 0, ie)
+                intbit = z3.If(ex_ == 0, z3.BitVecVal(0, 1), z3.BitVecVal(1, 1))
+                return simp(z3.Concat(sign, ex_, intbit, fr))
             return from_fp(z3.fpToFP(z3.RNE(), to_fp(v, sw), FSORT[dw]))
         if op in ('sitofp', 'uitofp'):
             if dw == 80:
@@ -1592,6 +1605,13 @@ def _strcpy(ex, d, s_):
     return d
 
 
+def _strcat(ex, d, s_):
+    n = _strlen(ex, d)
+    m = _strlen(ex, s_)
+    ex.memcpy(ex._add64(d, n), s_, m + 1, 'strcat')
+    return d
+
+
 def _abort(ex, *a):
     raise PathEnd()
 
@@ -1653,5 +1673,5 @@ def _sprintf(ex, dst, fmt, *args):
 LIBC = {
     'strlen': _strlen, 'strcmp': _strcmp, 'strncmp': _strncmp, 'memcmp': _memcmp,
     'memcpy': _memcpy, 'memmove': _memmove, 'memset': _memset, 'memchr': _memchr,
-    'abort': _abort, 'sprintf': _sprintf, 'strcpy': _strcpy,
+    'abort': _abort, 'sprintf': _sprintf, 'strcpy': _strcpy, 'strcat': _strcat,
 }
